@@ -5,11 +5,10 @@ From BV Require Import Base.Prelude Model.Block Model.ForkDB Model.Forkable Spec
   Proofs.Fk.StoreFacts Proofs.Fk.WalkFacts Proofs.Fk.FixedLib Proofs.Fk.MovingLibInv Proofs.Fk.MovingLibFin Proofs.Fk.MovingLibDisc Proofs.Fk.FailPrefix Proofs.Fk.FailRun.
 Local Open Scope N_scope.
 
-(* ---- a well-formed history without empty parent ids ---- *)
+(* ---- a well-formed history (parent ids may be empty) ---- *)
 Section Wf.
   Variable h : list block.
   Hypothesis Hwf : wf_b h = true.
-  Hypothesis Hpar : forall b, In b h -> bparent b <> 0.
 
   Lemma wf_block_of b : In b h -> wf_block h b = true.
   Proof. unfold wf_b in Hwf. rewrite forallb_forall in Hwf. apply Hwf. Qed.
@@ -21,12 +20,12 @@ Section Wf.
     apply block_eqb_eq in W. congruence.
   Qed.
 
-  Lemma bridge_id b : In b h -> bid b <> 0 /\ bparent b <> 0 /\ bid b <> bparent b.
+  Lemma bridge_id b : In b h -> bid b <> 0 /\ bid b <> bparent b.
   Proof.
     intros Hb. pose proof (wf_block_of b Hb) as W. unfold wf_block in W.
     apply andb_true_iff in W as [W _]. apply andb_true_iff in W as [W _]. apply andb_true_iff in W as [W1 W2].
     apply negb_true_iff, N.eqb_neq in W1. apply negb_true_iff, N.eqb_neq in W2.
-    pose proof (Hpar b Hb). auto.
+    auto.
   Qed.
 
   Lemma bridge_uniq x y : In x h -> In y h -> bid x = bid y -> x = y.
@@ -107,7 +106,7 @@ Section Bridge.
   Proof.
     intros Hb. destruct scope_parts as (_ & Hok & _ & _). unfold lib_ok_b in Hok. rewrite forallb_forall in Hok.
     specialize (Hok b Hb). unfold lib_ok_block, mode_root in Hok. apply andb_true_iff in Hok as [Hok _].
-    exists (Universe.chain h b). split; [apply (chain_uchain h m_wf m_par b Hb)|].
+    exists (Universe.chain h b). split; [apply (chain_uchain h m_wf b Hb)|].
     apply orb_true_iff in Hok as [Hex|Hlow].
     - left. apply existsb_exists in Hex as (a & Ha & Hn). exists a. split; [exact Ha | apply N.eqb_eq; exact Hn].
     - right. destruct (bparent (last (Universe.chain h b) b) =? ri r0); [apply N.leb_le | apply N.ltb_lt]; exact Hlow.
@@ -136,7 +135,7 @@ Section BridgeDisc.
   Proof.
     intros Hb. destruct disc_parts as (_ & Hok & _). unfold lib_ok_b in Hok. rewrite forallb_forall in Hok.
     specialize (Hok b Hb). unfold lib_ok_block, mode_root in Hok. apply andb_true_iff in Hok as [Hok _].
-    exists (Universe.chain h b). split; [apply (chain_uchain h d_wf d_par b Hb)|].
+    exists (Universe.chain h b). split; [apply (chain_uchain h d_wf b Hb)|].
     apply orb_true_iff in Hok as [Hex|Hlow].
     - left. apply existsb_exists in Hex as (a & Ha & Hn). exists a. split; [exact Ha | apply N.eqb_eq; exact Hn].
     - right. apply N.ltb_lt. exact Hlow.
@@ -157,7 +156,7 @@ Proof.
   intros Hnofail Hm Hnew Hundo Hscope.
   destruct (scope_parts r0 h Hscope) as (_ & _ & Hr0 & _).
   exact (moving_lib_run h r0 cfg Hnofail Hnew Hundo
-           (bridge_id h (m_wf r0 h Hscope) (m_par r0 h Hscope)) (bridge_uniq h (m_wf r0 h Hscope)) (bridge_up h (m_wf r0 h Hscope)) Hr0
+           (bridge_id h (m_wf r0 h Hscope)) (bridge_uniq h (m_wf r0 h Hscope)) (bridge_up h (m_wf r0 h Hscope)) Hr0
            (fun y Hy => proj2 (proj2 (mb_parts r0 h Hscope y Hy)))
            (fun x Hx => proj1 (proj2 (mb_parts r0 h Hscope x Hx)))
            (bridge_decl r0 h Hscope)
@@ -172,7 +171,7 @@ Proof.
   intros Hnofail Hm Hnew Hundo Hirr Hscope.
   destruct (scope_parts r0 h Hscope) as (_ & _ & Hr0 & _).
   exact (moving_lib_c02 h r0 cfg Hnofail Hnew Hundo Hirr
-           (bridge_id h (m_wf r0 h Hscope) (m_par r0 h Hscope)) (bridge_uniq h (m_wf r0 h Hscope)) (bridge_up h (m_wf r0 h Hscope)) Hr0
+           (bridge_id h (m_wf r0 h Hscope)) (bridge_uniq h (m_wf r0 h Hscope)) (bridge_up h (m_wf r0 h Hscope)) Hr0
            (fun y Hy => proj2 (proj2 (mb_parts r0 h Hscope y Hy)))
            (fun x Hx => proj1 (proj2 (mb_parts r0 h Hscope x Hx)))
            (bridge_decl r0 h Hscope)
@@ -239,7 +238,7 @@ Lemma disc_nofail cfg h :
 Proof.
   intros Hnofail Hhold Hincl Hnew Hundo Hscope.
   exact (disc_run h cfg Hnofail Hnew Hundo Hhold Hincl
-           (bridge_id h (d_wf h Hscope) (d_par h Hscope)) (bridge_uniq h (d_wf h Hscope)) (bridge_up h (d_wf h Hscope))
+           (bridge_id h (d_wf h Hscope)) (bridge_uniq h (d_wf h Hscope)) (bridge_up h (d_wf h Hscope))
            (bridge_decl_none h Hscope) h (fun b Hb => Hb)).
 Qed.
 
